@@ -376,5 +376,63 @@ theorem deliver_of_inv (post : Store Path Key Page → Result) (st : St Path Key
   | true => simp
   | false => simp [hi.2 hd]
 
+/-! ### Layer 4 (sources sharing a key are generated again) changes nothing where every key has one owner -/
+
+theorem otherGenerators_nil (keys : List Key) (e : Env Path Content) {s : Store Path Key Page}
+    (hw : WellOwned owner s) (p : Path) (out : List (Key × Page)) :
+    otherGenerators P srcs e p (droppedKeys keys s p out) = [] := by
+  unfold otherGenerators
+  rw [List.filter_eq_nil_iff]
+  intro q _ hq
+  simp only [Bool.and_eq_true, decide_eq_true_eq, List.any_eq_true] at hq
+  obtain ⟨⟨hne, _⟩, kp, hkp, hd⟩ := hq
+  unfold droppedKeys at hd
+  rw [List.mem_filter] at hd
+  obtain ⟨_, hm⟩ := hd
+  cases hs : s kp.1 with
+  | none => rw [hs] at hm; simp at hm
+  | some v =>
+    obtain ⟨pg, q'⟩ := v
+    rw [hs] at hm
+    simp at hm
+    have h1 : q' = owner kp.1 := hw _ _ _ hs
+    have h2 : owner kp.1 = q := owns e q kp.1 kp.2 hkp
+    exact hne (by rw [← h2, ← h1, hm.1])
+
+theorem refreshShared_eq_refresh (keys : List Key) (e : Env Path Content) {s : Store Path Key Page}
+    (hw : WellOwned owner s) (p : Path) :
+    refreshShared P srcs keys e s p = refresh P srcs e s p := by
+  unfold refreshShared
+  simp only
+  rw [otherGenerators_nil P owner srcs owns keys e hw]
+  rfl
+
+theorem foldl_refreshShared (keys : List Key) (e : Env Path Content) :
+    ∀ (R : List Path) (s : Store Path Key Page), WellOwned owner s →
+      R.foldl (refreshShared P srcs keys e) s = R.foldl (refresh P srcs e) s
+  | [], _, _ => rfl
+  | p :: R, s, hw => by
+    rw [List.foldl_cons, List.foldl_cons, refreshShared_eq_refresh P owner srcs owns keys e hw]
+    exact foldl_refreshShared keys e R _ (refresh_wellOwned P owner srcs owns e hw p)
+
+theorem stepShared_eq_step (keys : List Key) (post : Store Path Key Page → Result)
+    (st : St Path Key Page Content Result) (x : Op Path Content × List Path) (hw : WellOwned owner st.store) :
+    stepShared P srcs keys post st x = step P srcs post st x := by
+  obtain ⟨op, R⟩ := x
+  cases op <;> simp only [stepShared, step, foldl_refreshShared P owner srcs owns keys _ R st.store hw]
+
+theorem runShared_eq_run (keys : List Key) (post : Store Path Key Page → Result) :
+    ∀ (xs : List (Op Path Content × List Path)) (st : St Path Key Page Content Result),
+      Inv P owner srcs post st → CoversAll P srcs st.env xs →
+      runShared P srcs keys post st xs = run P srcs post st xs
+  | [], _, _, _ => rfl
+  | x :: xs, st, hi, hc => by
+    have hw := hi.1.wellOwned P owner srcs owns
+    show runShared P srcs keys post (stepShared P srcs keys post st x) xs = run P srcs post (step P srcs post st x) xs
+    rw [stepShared_eq_step P owner srcs owns keys post st x hw]
+    have h1 := inv_step P owner srcs owns post st x hi hc.1
+    have he := step_env P owner srcs owns post st x
+    exact runShared_eq_run keys post xs _ h1 (by rw [he]; exact hc.2)
+
 end
 end SnootyVerif.Project
